@@ -24,116 +24,17 @@ from wnstatic.src import Repo, AnalysisError  # noqa: E402
 from wnstatic.runtime import run_rules, Ctx, load_known  # noqa: E402
 
 
-def load_corpus():
-    import importlib.util
-    out = []
-    for path in sorted(glob.glob(os.path.join(VERIF, 'selftest', 'corpus', 'c*.py'))):
-        spec = importlib.util.spec_from_file_location('corpus_' + os.path.basename(path)[:-3], path)
-        mod = importlib.util.module_from_spec(spec)
-        spec.loader.exec_module(mod)
-        pid = os.path.basename(path)[:-3].upper()
-        for m in mod.MUTANTS:
-            m = dict(m)
-            m.setdefault('property', pid)
-            m['name'] = f"{m['property']}/{m['name']}"
-            m['source'] = os.path.basename(path)
-            out.append(m)
-    return out
-
-
-def apply_edits(edits, root='/repo'):
-    overlay = {}
-    for e in edits:
-        rel = e['file']
-        src = overlay.get(rel)
-        if src is None:
-            with open(os.path.join(root, rel), encoding='utf-8') as fh:
-                src = fh.read()
-        cnt = src.count(e['old'])
-        if cnt != e.get('count', 1):
-            return None, f'{rel}: pattern matches {cnt} times (expected {e.get("count", 1)}): {e["old"][:50]!r}'
-        src = src.replace(e['old'], e['new'])
-        overlay[rel] = src
-    return overlay, None
-
-
-def findings_of(pid, overlay):
-    ctx = Ctx(Repo(overlay=overlay))
-    results, errors = run_rules(pid, ctx)
-    keys = {}
-    for r in results:
-        for f in r.findings:
-            keys[(f.rule, f.key)] = f.message
-    return keys, errors
-
-
-_base_cache = {}
-
-
-def base(pid):
-    if pid not in _base_cache:
-        _base_cache[pid] = findings_of(pid, None)
-    return _base_cache[pid]
-
-
-def patch_overlay(patch_path, root='/repo'):
-    """apply a unified diff to a scratch copy of the touched files (git apply on a temp index-free tree)."""
-    import tempfile
-    import shutil
-    files = re.findall(r'^\+\+\+ b/(\S+)', open(patch_path).read(), flags=re.M)
-    tmp = tempfile.mkdtemp(prefix='wnst-')
-    try:
-        for rel in files:
-            os.makedirs(os.path.dirname(os.path.join(tmp, rel)), exist_ok=True)
-            if os.path.exists(os.path.join(root, rel)):
-                shutil.copy(os.path.join(root, rel), os.path.join(tmp, rel))
-        r = subprocess.run(['git', 'apply', '--unsafe-paths', '--directory', tmp, patch_path],
-                           capture_output=True, text=True, cwd='/')
-        if r.returncode != 0:
-            r = subprocess.run(['patch', '-p1', '-s', '-d', tmp, '-i', patch_path], capture_output=True, text=True)
-            if r.returncode != 0:
-                return None, f'patch does not apply: {r.stderr[:200]}'
-        overlay = {}
-        for rel in files:
-            p = os.path.join(tmp, rel)
-            if os.path.exists(p):
-                overlay[rel] = open(p, encoding='utf-8').read()
-        return overlay, None
-    finally:
-        shutil.rmtree(tmp, ignore_errors=True)
+from wnstatic.arming import load_corpus, run_variant, variants_for, patch_overlay_from_diff  # noqa: E402
 
 
 def run_one(m):
-    pid = m['property']
-    try:
-        if 'patch' in m:
-            overlay, err = patch_overlay(m['patch'])
-        else:
-            overlay, err = apply_edits(m['edits'])
+    if 'patch' in m:
+        overlay, err = patch_overlay_from_diff(m['patch'])
         if err:
             return m['name'], 'SKIP', err
-        bkeys, berr = base(pid)
-        try:
-            keys, errors = findings_of(pid, overlay)
-        except AnalysisError as exc:
-            keys, errors = {}, [str(exc)]
-        new = {k: v for k, v in keys.items() if k not in bkeys}
-        exp = m['expect']
-        if exp == 'silent':
-            if new or (errors and not berr):
-                return m['name'], 'FAIL', f'expected silent, got {list(new)[:3]} errors={errors[:2]}'
-            return m['name'], 'ok', 'silent'
-        if exp == 'error':
-            return (m['name'], 'ok', 'analysis error') if errors else (m['name'], 'FAIL', 'expected analysis error')
-        rules = {k[0] for k in new}
-        want = exp if isinstance(exp, list) else [exp]
-        if any(w in rules or any(r.startswith(w) for r in rules) for w in want):
-            hit = [k for k in new if k[0] in want or any(k[0].startswith(w) for w in want)][0]
-            return m['name'], 'ok', f'{hit[0]} [{hit[1][:70]}]'
-        return m['name'], 'FAIL', f'expected {want}, new findings {sorted(rules)} errors={errors[:2]}'
-    except Exception as exc:  # noqa: BLE001
-        import traceback
-        return m['name'], 'FAIL', f'exception {type(exc).__name__}: {exc} {traceback.format_exc(limit=3)}'
+        m = dict(m)
+        m['overlay'] = overlay
+    return run_variant(m)
 
 
 def seeded():
@@ -155,8 +56,13 @@ def main():
     ap.add_argument('-j', type=int, default=16)
     ap.add_argument('-v', action='store_true')
     ap.add_argument('-k', help='substring of variant name')
+    ap.add_argument('--auto', action='store_true', help='also run the systematically generated variants')
     args = ap.parse_args()
     corpus = load_corpus() + seeded()
+    if args.auto:
+        from wnstatic.arming import GENERATORS
+        for g in GENERATORS.values():
+            corpus += g()
     if args.property:
         corpus = [m for m in corpus if m['property'] == args.property.upper()]
     if args.k:
